@@ -90,14 +90,22 @@ type labelNode struct {
 	l map[string]*labelNode
 }
 
+// shortLabelKey packs a label shorter than 24 bytes together with its length
+// into a fixed-size key, so that labels that differ only in trailing zero
+// bytes do not share a key.
+func shortLabelKey(label []byte) (key [24]byte) {
+	copy(key[:], label)
+	key[23] = byte(len(label))
+	return key
+}
+
 func (n *labelNode) AddLeaf(label []byte) {
 	l := len(label)
-	if l <= 24 {
+	if l < 24 {
 		if n.s == nil {
 			n.s = make(map[[24]byte]*labelNode)
 		}
-		var key [24]byte
-		copy(key[:], label)
+		key := shortLabelKey(label)
 		n.s[key] = nil
 	} else {
 		if n.l == nil {
@@ -109,9 +117,8 @@ func (n *labelNode) AddLeaf(label []byte) {
 
 func (n *labelNode) GetOrAddChild(label []byte) *labelNode {
 	l := len(label)
-	if l <= 24 {
-		var key [24]byte
-		copy(key[:], label)
+	if l < 24 {
+		key := shortLabelKey(label)
 		if child := n.s[key]; child != nil {
 			return child
 		}
@@ -136,9 +143,8 @@ func (n *labelNode) GetOrAddChild(label []byte) *labelNode {
 
 func (n *labelNode) GetChild(label []byte) (child *labelNode, ok bool) {
 	l := len(label)
-	if l <= 24 {
-		var key [24]byte
-		copy(key[:], label)
+	if l < 24 {
+		key := shortLabelKey(label)
 		child, ok = n.s[key]
 		return
 	}
